@@ -1,6 +1,7 @@
 INIT Init
 NEXT Next
-CONSTANTS Stride = 2
+CONSTANTS Api = "lfric"
+ Stride = 7
  Offset = 0
  AlgKey = "canon"
  PsyKey = "lower"
